@@ -53,7 +53,8 @@ def run_item(item):
         if kind == "contract":
             from pyvc.verify import verify_contract
             c = find_contract(item["spec"])
-            r = verify_contract(c, timeout_ms=item.get("timeout_ms", getattr(c, "timeout_ms", 10000)),
+            dflt = 10000 if item.get("tier") == "quick" else 60000
+            r = verify_contract(c, timeout_ms=item.get("timeout_ms", max(dflt, getattr(c, "timeout_ms", dflt))),
                                 max_paths=item.get("max_paths", getattr(c, "max_paths", 600)), only=item.get("only"))
             obls = r["obligations"]
             for o in obls:
@@ -95,7 +96,8 @@ def run_item(item):
             # a deliberately wrong contract: at least one obligation MUST be refuted
             from pyvc.verify import verify_contract
             c = find_contract(item["spec"])
-            r = verify_contract(c, timeout_ms=item.get("timeout_ms", getattr(c, "timeout_ms", 10000)), max_paths=item.get("max_paths", 600))
+            dflt = 10000 if item.get("tier") == "quick" else 60000
+            r = verify_contract(c, timeout_ms=item.get("timeout_ms", max(dflt, getattr(c, "timeout_ms", dflt))), max_paths=item.get("max_paths", 600))
             bad = [o for o in r["obligations"] if o["verdict"] == "REFUTED"]
             ob = dict(name=f"{item['pid']}:canary.{item['spec'].split(':')[1]}", kind="canary",
                       verdict="CANARY_OK" if bad else "CANARY_PASSED_VACUOUS", time=r["wall"], backend="z3",
